@@ -65,6 +65,8 @@ def gen_consts(v):
         ('ES_DATA_PAIRS', '%sEspNetNode::DATA_PAIRS' % es),
         ('ES_DATA_RLE', '%sEspNetNode::DATA_RLE' % es),
         ('ES_START_CODE', '%sEspNetNode::START_CODE' % es),
+        ('ES_RLE_ESCAPE', '%sRunLengthDecoder::ESCAPE_VALUE' % es),
+        ('ES_RLE_REPEAT', '%sRunLengthDecoder::REPEAT_VALUE' % es),
         # Pathport
         ('PP_HEADER_SIZE', 'sizeof(%spathport_packet_header)' % pp),
         ('PP_PDU_HEADER_SIZE', 'sizeof(%spathport_pdu_header)' % pp),
@@ -115,7 +117,7 @@ def gen_consts(v):
     return v.gen_consts_cpp(ID, ['ola/Constants.h', 'ola/dmx/RunLengthEncoder.h',
                                  'plugins/shownet/ShowNetNode.h', 'plugins/artnet/ArtNetNode.h',
                                  'plugins/artnet/ArtNetPackets.h', 'plugins/sandnet/SandNetNode.h',
-                                 'plugins/espnet/EspNetNode.h', 'plugins/pathport/PathportNode.h',
+                                 'plugins/espnet/EspNetNode.h', 'plugins/espnet/RunLengthDecoder.h', 'plugins/pathport/PathportNode.h',
                                  'ola/acn/ACNVectors.h', 'ola/acn/ACNFlags.h', 'ola/acn/CID.h',
                                  'libs/acn/PreamblePacker.h', 'libs/acn/PDU.h', 'libs/acn/BaseInflator.h',
                                  'libs/acn/E131Header.h', 'libs/acn/DMPE131Inflator.h',
@@ -137,7 +139,7 @@ RULE = ('frames of every length 0-512 x {random, all-equal, ramp, alternating, n
         'virtual clock (>= 120 s, ArtPoll/ArtPollReply exchanged at intervals below and above the 31 s age-out, unicast '
         'and always-broadcast senders); long-lived sender AND receiver node objects per protocol with scripts over four universes, repeated / identical '
         'frames and public setters between sends (names, StartStream, port re-configuration); Art-Net ports with two or '
-        'three senders, joins and silences across the 10 s merge timeout, HTP and LTP; E1.31 receivers with two or three sender CIDs on a virtual clock (vanishing without terminate and expiring, take-over at lower / higher priority, a sender idling at blackout, terminate and restart); transmit DmxBuffers carry history (an earlier, longer frame left in the '
+        'three senders, joins and silences across the 10 s merge timeout, HTP and LTP; E1.31 receivers with two or three sender CIDs on a virtual clock (vanishing without terminate and expiring, take-over at lower / higher priority, a sender idling at blackout, terminate and restart); ESP Net DATA_RLE datagrams from a reference encoder (values 0xFD/0xFE as literals, pairs, runs of every chunk length) and arbitrary bytes through the real RunLengthDecoder; transmit DmxBuffers carry history (an earlier, longer frame left in the '
         '512-byte block; explicit dirty-block cases for Encode and ShowNet with short frames); Art-Net sender and receiver '
         'as separate nodes with 0/1/4 input ports and the address setters called in every order before/after Start(); '
         'non-trivial = complete encode / whole decode / datagram handled; '
@@ -164,7 +166,9 @@ TRUSTED = ['modelled rather than verified: RunLengthEncoder::Encode/Decode, DmxB
            'wire constants and struct offsets regenerated into Gen.v',
            'E1.31 receive model covers datagrams with one PDU per block (what OLA sends); blocks with several PDUs and '
            'Art-Net opcodes other than ArtDmx are reported as unmodelled, never fed by the generator',
-           'not modelled: ESP Net RLE/pairs data types (OLA never sends them), ShowNet uncompressed packets (neither sent nor '
+           'ESP Net RunLengthDecoder::Decode and EspNetNode::HandleData(DATA_RLE) are modelled; the encoder of that format is a '
+           'reference encoder written for the check (OLA has none), tied to a C++ copy in the harness by the compared `enc` key',
+           'not modelled: ESP Net pairs data type (unsupported by OLA), ShowNet uncompressed packets (neither sent nor '
            'handled by OLA), KiNET (send only, received datagrams are discarded)']
 SPEC_KEYS = ['lossless', 'clean', 'spec', 'handled', 'ret']
 PROC_TIMEOUT = 1800
@@ -185,7 +189,7 @@ LEVEL_TEXT = ('Coq theorems, for all frames of 1-512 slots and all addresses, ab
               'c07_artnet_remaining_sender (two merge slots, LTP/HTP: once the other sender is silent beyond the 10 s merge '
               'timeout the remaining sender\'s frame is reproduced exactly), c07_e131_sender_script (SetSourceName / '
               'StartStream between sends never disturb a stream), c07_shownet_sender_history (one sender, any universes, '
-              'identical frames, renames); c07_e131_remaining_sender (several sender CIDs: once every other sender has expired the live sender\'s frame is reproduced exactly, whatever priority the vanished senders left behind); c07_e131_multi_universe: for any interleaving of sends over any universes by one sender each handler sees '
+              'identical frames, renames); c07_espnet_rle_lossless (ESP Net run-length format: decode of a reference encoding gives the frame back for every frame, 0xFD/0xFE in runs and literals included); c07_e131_remaining_sender (several sender CIDs: once every other sender has expired the live sender\'s frame is reproduced exactly, whatever priority the vanished senders left behind); c07_e131_multi_universe: for any interleaving of sends over any universes by one sender each handler sees '
               'exactly the frames of its own universe (rev 3 proved; rev 2 multi-universe correspondence-tested); plus RunLengthEncoder lossless / bounded / false-iff-truncated / count bytes in 1..127 for all '
               'frames and capacities.  The models are tied to the C++ (real node objects, ASan/UBSan, datagram bytes '
               'compared) by a differential correspondence check; receivers are modelled with one handler and no '
@@ -520,6 +524,31 @@ def gen_cases(rng, tier):
                 else:
                     toks.append('%s%d' % (rng.choice('aabbc'), rng.randrange(3)))
             yield 'e1c %d %s %s' % (rev2, '/'.join(pool), ','.join(toks))
+    # ---- ESP Net run-length coded data (received only): frames through a reference encoder of the format,
+    #      aimed at the escape / repeat bytes 0xFD 0xFE as literals, pairs and runs of every chunking length
+    def esp_frames():
+        for v in (0, 7, 252, 253, 254, 255):
+            for n in (1, 2, 3, 4, 254, 255, 256, 257, 400):
+                yield [v] * n
+                yield [1] + [v] * n + [2]
+            yield [v] * 510; yield [v] * 511; yield [v] * 512
+        yield [253, 254, 253, 254]; yield [254, 3, 7]; yield [253, 253, 253, 9]; yield [9, 254, 254, 254, 253]
+        for _ in range(40 if quick else 600):
+            n = rng.choice([1, 2, 5, 24, 100, 300])
+            yield [rng.choice([0, 1, 252, 253, 253, 254, 254, 255, rng.randrange(256)]) for _ in range(n)]
+        for _ in range(10 if quick else 100):
+            f = []
+            while len(f) < rng.choice([50, 300, 512]):
+                f += [rng.choice([253, 254, 0, rng.randrange(256)])] * rng.choice([1, 1, 2, 3, 5, 40, 260])
+            yield f[:512]
+    for f in esp_frames():
+        u = rng.randrange(256)
+        hu = u if rng.random() < 0.92 else (u + 1) & 255
+        yield 'esr %d %d %s %s' % (u, hu, olds(rng, len(f)), hx(f))
+    for _ in range(300 if quick else 6000):
+        n = rng.choice([0, 1, 2, 3, 5, 20, 100, rng.randrange(1, 600)])
+        bs = [rng.choice([0xFD, 0xFE, 0xFE, 0, 1, 3, 255, rng.randrange(256)]) for _ in range(n)]
+        yield 'esd %s %s' % (olds(rng, n), hx(bs))
     if not quick:
         # all addresses of the small address spaces
         f = [1, 2, 3, 3, 3, 9]
@@ -554,6 +583,8 @@ def nontrivial(payload, md):
         return md.get('ret') == '1' and md.get('size') not in (None, '0')
     if op == 'dec':
         return md.get('dret') == '1' and md.get('dbuf') not in (None, 'none')
-    if op in ('e1s', 'e1m', 'an3', 'anu', 'e1p', 'sac', 'hist', 'anm', 'e1c'):
+    if op in ('e1s', 'e1m', 'an3', 'anu', 'e1p', 'sac', 'hist', 'anm', 'e1c', 'esr'):
         return md.get('spec') == '1'
+    if op == 'esd':
+        return md.get('dbuf') not in (None, 'none', '-')
     return md.get('handled') == '1'
